@@ -1,6 +1,7 @@
 import PandoraModel.Properties.C10
 import PandoraModel.Properties.C10C12
 import PandoraModel.Properties.C10Kernels
+import PandoraModel.Properties.C10KernelsIntervals
 open Pandora.C10 Pandora.Filter Pandora.Blocks
 #print axioms blocked_eq_direct
 #print axioms sorted_isKth
@@ -56,3 +57,8 @@ open Pandora.C10 Pandora.Filter Pandora.Blocks
 #print axioms Pandora.C10Kernels.filterBilateral_generated
 #print axioms Pandora.C10Kernels.filterDisparityBilateral_generated
 #print axioms Pandora.C10Kernels.filterDisparityBilateral_spec
+-- T15: the glue of median_for_intervals regenerated from the source = the composed model (C10 o C12)
+#print axioms Pandora.C10KernelsIntervals.bandStep_spec
+#print axioms Pandora.C10KernelsIntervals.medianForIntervals_generated
+#print axioms Pandora.C10KernelsIntervals.medianForIntervals_generated_spec
+#print axioms Pandora.C10KernelsIntervals.medianForIntervals_generated_bands
